@@ -133,11 +133,11 @@ def r1(F, R):
         ok, why, cu = wrapped(F, b, s)
         root = F.root_fn(b).short.rsplit("::", 1)[-1]
         kk = "hook" if kind.startswith("hook:") else kind
-        kinds[kk] = kinds.get(kk, 0) + 1
+        kinds[kk] = kinds.get(kk, 0) + len(roles.routines_of(F, b))    # (a site in a shared private helper counts once per routine using it)
         R.check(ok, f"wrapped/{kind}@{root}", s, why, f"user callback `{kind}` in {root} is not contained: {why} — a panic there unwinds through the runner")
     R.check(kinds.get("World::new", 0) >= 2 and kinds.get("step-fn", 0) >= 1 and kinds.get("hook", 0) >= 2, "callback-sites-found", None,
             f"user-callback sites: {kinds}", f"user-callback sites found: {kinds}; expected World::new x2, step fn, before and after hook")
-    R.floor(6)
+    R.floor(5)
 
 
 def r2(F, R):
@@ -200,6 +200,14 @@ def r2(F, R):
                         tsd = P.single_def(tl) if tl is not None else None
                         if tsd and tsd[1] == "assign" and tsd[2]["rv"]["k"] == "agg" and tsd[2]["rv"].get("agg") == "tuple" and pidx < len(tsd[2]["rv"]["ops"]):
                             out.append((P, A.deep_slice(F, P, [tsd[2]["rv"]["ops"][pidx]])))
+        # ... or a parameter of a private constructor fn (`ExecutionFailure::before_hook_panicked(world, info)`): the arguments at its call sites
+        if b.kind in ("Fn", "AssocFn") and l is not None:
+            cp = A.canon_place(b, {"l": l, "p": []})
+            if 1 <= cp["l"] <= b.arg_count and not cp["p"]:
+                for site in F.callers_of(b):
+                    t = site.body.term(site.bb) if hasattr(site.body, "term") else None
+                    if t and t.get("k") == "call" and cp["l"] - 1 < len(t["args"]):
+                        out.append((site.body, A.deep_slice(F, site.body, [t["args"][cp["l"] - 1]])))
         return out
 
     for b, s, op, name in sinks:
